@@ -401,3 +401,515 @@ Proof.
   rewrite (ext_den _ _ _ _ E13 Hi1 Hvgi), (Hd1 inp Hi1).
   now rewrite !(ext_den _ _ _ _ E1 Hi) by assumption.
 Qed.
+
+Lemma gate_facts b x g :
+  inv b -> valid b x -> lookup b x = Ok (Some g) ->
+  let '(x1, x2) := gops g in
+  x1 < x /\ x2 < x /\ valid b x1 /\ valid b x2 /\ b_shift b <= x /\
+  forall inp, ins_ok b inp -> den inp b x = gfun g (den inp b x1) (den inp b x2).
+Proof.
+  intros I Hv Hl. destruct (lookup_gate b x g I Hl) as [Hs Hg].
+  pose proof (gate_operands b x g I Hs Hg) as Hops.
+  pose proof (fun inp Hi => den_lookup b inp x g I Hi Hl) as Hd.
+  destruct (gops g) as [x1 x2]. destruct Hops as [H1 H2].
+  unfold valid in *. repeat split; auto; lia.
+Qed.
+
+Ltac den_cases :=
+  repeat match goal with
+         | |- context [den ?i ?b ?w] => destruct (den i b w)
+         end; reflexivity.
+
+Section XorSound.
+  Variable rec : builder -> N -> N -> res (N * builder).
+  Variable fuel' : nat.
+  Variable b : builder.
+  Variables x y : N.
+  Hypothesis I : inv b.
+  Hypothesis Hx : valid b x.
+  Hypothesis Hy : valid b y.
+  Hypothesis Hx0 : x <> 0.
+  Hypothesis Hy0 : y <> 0.
+  Hypothesis Hxy : x <> y.
+  Hypothesis Hrec : forall x' y', valid b x' -> valid b y' -> x' + y' < x + y ->
+    good (xor_post b x' y') fuel' (x' + y') (rec b x' y').
+
+  Lemma good_rec x' y' :
+    valid b x' -> valid b y' -> x' + y' < x + y ->
+    (forall inp, ins_ok b inp ->
+       xorb (den inp b x') (den inp b y') = xorb (den inp b x) (den inp b y)) ->
+    good (xor_post b x y) (S fuel') (x + y) (rec b x' y').
+  Proof.
+    intros Hx' Hy' Hm Ht. pose proof (Hrec x' y' Hx' Hy' Hm) as H.
+    destruct (rec b x' y') as [[r b']| |]; cbn [good xor_post] in *.
+    - destruct H as (I' & E & Hv & Hd). split; [exact I'|]. split; [exact E|]. split; [exact Hv|].
+      intros inp Hi. rewrite (Hd inp Hi). now apply Ht.
+    - exact H.
+    - lia.
+  Qed.
+
+  Lemma good_ret w :
+    valid b w ->
+    (forall inp, ins_ok b inp -> den inp b w = xorb (den inp b x) (den inp b y)) ->
+    good (xor_post b x y) (S fuel') (x + y) (Ok (w, b)).
+  Proof.
+    intros Hw Hd. cbn [good xor_post]. split; [exact I|]. split; [apply ext_refl|]. split; assumption.
+  Qed.
+
+  Lemma good_final : good (xor_post b x y) (S fuel') (x + y) (Ok (final_xor b x y)).
+  Proof. cbn [good]. now apply final_xor_sound. Qed.
+
+  Lemma xstage3_sound gy :
+    lookup b y = Ok gy ->
+    good (xor_post b x y) (S fuel') (x + y) (xstage3 rec b x y gy).
+  Proof.
+    intro Ly. unfold xstage3.
+    destruct gy as [[y1 y2|y1 y2]|]; try apply good_final.
+    pose proof (gate_facts b y _ I Hy Ly) as F. cbn [gops gfun] in F.
+    destruct F as (L1 & L2 & V1 & V2 & Hs & Hd).
+    destruct (N.eqb_spec x y1) as [<-|N1].
+    { apply good_ret; [exact V2|]. intros inp Hi. rewrite (Hd inp Hi). den_cases. }
+    destruct (N.eqb_spec x y2) as [<-|N2].
+    { apply good_ret; [exact V1|]. intros inp Hi. rewrite (Hd inp Hi). den_cases. }
+    destruct (nfind x (b_neg b)) as [xn|] eqn:Ex; [|apply good_final].
+    destruct (inv_neg b I _ _ Ex) as (Hx2 & _ & _ & Hdn).
+    destruct (valid_consts b I) as [_ V1c].
+    destruct (N.eqb_spec xn y1) as [->|_].
+    { apply good_rec; auto; [lia|]. intros inp Hi.
+      rewrite (Hd inp Hi), den_const1. rewrite (Hdn inp Hi). den_cases. }
+    destruct (N.eqb_spec xn y2) as [->|_]; [|apply good_final].
+    apply good_rec; auto; [lia|]. intros inp Hi.
+    rewrite (Hd inp Hi), den_const1. rewrite (Hdn inp Hi). den_cases.
+  Qed.
+
+  Lemma xstage2_sound gx gy :
+    lookup b x = Ok gx -> lookup b y = Ok gy ->
+    good (xor_post b x y) (S fuel') (x + y) (xstage2 rec b x y gx gy).
+  Proof.
+    intros Lx Ly. unfold xstage2.
+    destruct gx as [[x1 x2|x1 x2]|]; try now apply xstage3_sound.
+    pose proof (gate_facts b x _ I Hx Lx) as F. cbn [gops gfun] in F.
+    destruct F as (L1 & L2 & V1 & V2 & Hs & Hd).
+    destruct (N.eqb_spec x1 y) as [->|N1].
+    { apply good_ret; [exact V2|]. intros inp Hi. rewrite (Hd inp Hi). den_cases. }
+    destruct (N.eqb_spec x2 y) as [->|N2].
+    { apply good_ret; [exact V1|]. intros inp Hi. rewrite (Hd inp Hi). den_cases. }
+    destruct (nfind y (b_neg b)) as [yn|] eqn:Ey; [|now apply xstage3_sound].
+    destruct (inv_neg b I _ _ Ey) as (Hy2 & _ & _ & Hdn).
+    destruct (valid_consts b I) as [_ V1c].
+    destruct (N.eqb_spec x1 yn) as [->|_].
+    { apply good_rec; auto; [lia|]. intros inp Hi.
+      rewrite (Hd inp Hi), den_const1. rewrite (Hdn inp Hi). den_cases. }
+    destruct (N.eqb_spec x2 yn) as [->|_]; [|now apply xstage3_sound].
+    apply good_rec; auto; [lia|]. intros inp Hi.
+    rewrite (Hd inp Hi), den_const1. rewrite (Hdn inp Hi). den_cases.
+  Qed.
+
+  (* every arrangement lists the operands of x and of y *)
+  Definition arr_ok (a : N * N * N * N) : Prop :=
+    let '(a1, a2, b1, b2) := a in
+    valid b a1 /\ valid b a2 /\ valid b b1 /\ valid b b2 /\
+    forall inp, ins_ok b inp ->
+      den inp b x = andb (den inp b a1) (den inp b a2) /\
+      den inp b y = andb (den inp b b1) (den inp b b2).
+
+  Lemma find_cached_and_xor_sound arr w :
+    Forall arr_ok arr -> find_cached_and_xor b arr = Some w ->
+    valid b w /\ forall inp, ins_ok b inp -> den inp b w = xorb (den inp b x) (den inp b y).
+  Proof.
+    induction 1 as [|[[[a1 a2] b1] b2] r Ha _ IH]; cbn [find_cached_and_xor]; [discriminate|].
+    destruct Ha as (_ & _ & _ & _ & Hd).
+    destruct (N.eqb_spec a1 b1) as [<-|_]; [|exact IH].
+    destruct (get_cached b (BXor a2 b2)) as [t|] eqn:Et; [|exact IH].
+    destruct (get_cached b (BAnd a1 t)) as [w'|] eqn:Ew; [|exact IH].
+    intros [= <-]. destruct (get_cached_xor_sound _ _ _ _ I Et) as [_ Hdt].
+    destruct (get_cached_and_sound _ _ _ _ I Ew) as [Hvw Hdw]. split; [exact Hvw|].
+    intros inp Hi. destruct (Hd inp Hi) as [-> ->]. rewrite (Hdw inp Hi), (Hdt inp Hi). den_cases.
+  Qed.
+
+  Lemma find_common_sound arr a1 a2 b2 :
+    Forall arr_ok arr -> find_common arr = Some (a1, a2, b2) ->
+    valid b a1 /\ valid b a2 /\ valid b b2 /\
+    forall inp, ins_ok b inp ->
+      xorb (den inp b x) (den inp b y) = andb (den inp b a1) (xorb (den inp b a2) (den inp b b2)).
+  Proof.
+    induction 1 as [|[[[c1 c2] d1] d2] r Ha _ IH]; cbn [find_common]; [discriminate|].
+    destruct (N.eqb_spec c1 d1) as [<-|_]; [|exact IH].
+    intros [= <- <- <-]. destruct Ha as (H1 & H2 & _ & H4 & Hd). repeat split; auto.
+    intros inp Hi. destruct (Hd inp Hi) as [-> ->]. den_cases.
+  Qed.
+
+  Lemma xstage1_sound gx gy :
+    lookup b x = Ok gx -> lookup b y = Ok gy ->
+    good (xor_post b x y) (S fuel') (x + y) (xstage1 rec b x y gx gy).
+  Proof.
+    intros Lx Ly. unfold xstage1.
+    destruct gx as [[x1 x2|x1 x2]|]; try now apply xstage2_sound.
+    - (* x is an XOR gate *)
+      destruct gy as [[y1 y2|y1 y2]|]; try now apply xstage2_sound.
+      pose proof (gate_facts b x _ I Hx Lx) as F. cbn [gops gfun] in F.
+      destruct F as (Lx1 & Lx2 & Vx1 & Vx2 & _ & Hdx).
+      pose proof (gate_facts b y _ I Hy Ly) as F. cbn [gops gfun] in F.
+      destruct F as (Ly1 & Ly2 & Vy1 & Vy2 & _ & Hdy).
+      destruct (N.eqb_spec x1 y1) as [->|_].
+      { apply good_rec; auto; [lia|]. intros inp Hi. rewrite (Hdx inp Hi), (Hdy inp Hi). den_cases. }
+      destruct (N.eqb_spec x1 y2) as [->|_].
+      { apply good_rec; auto; [lia|]. intros inp Hi. rewrite (Hdx inp Hi), (Hdy inp Hi). den_cases. }
+      destruct (N.eqb_spec x2 y1) as [->|_].
+      { apply good_rec; auto; [lia|]. intros inp Hi. rewrite (Hdx inp Hi), (Hdy inp Hi). den_cases. }
+      destruct (N.eqb_spec x2 y2) as [->|_]; [|now apply xstage2_sound].
+      apply good_rec; auto; [lia|]. intros inp Hi. rewrite (Hdx inp Hi), (Hdy inp Hi). den_cases.
+    - (* x is an AND gate *)
+      destruct gy as [[y1 y2|y1 y2]|]; try now apply xstage2_sound.
+      pose proof (gate_facts b x _ I Hx Lx) as F. cbn [gops gfun] in F.
+      destruct F as (Lx1 & Lx2 & Vx1 & Vx2 & _ & Hdx).
+      pose proof (gate_facts b y _ I Hy Ly) as F. cbn [gops gfun] in F.
+      destruct F as (Ly1 & Ly2 & Vy1 & Vy2 & _ & Hdy).
+      assert (Harr : Forall arr_ok (arrangements x1 x2 y1 y2)).
+      { assert (mk : forall a1 a2 b1 b2, valid b a1 -> valid b a2 -> valid b b1 -> valid b b2 ->
+                  (forall inp, ins_ok b inp ->
+                     den inp b x = andb (den inp b a1) (den inp b a2) /\
+                     den inp b y = andb (den inp b b1) (den inp b b2)) -> arr_ok (a1, a2, b1, b2)).
+        { intros a1 a2 b1 b2 H1 H2 H3 H4 H5. unfold arr_ok. auto. }
+        unfold arrangements.
+        apply Forall_cons; [apply mk; auto; intros inp Hi; rewrite (Hdx inp Hi), (Hdy inp Hi); split; den_cases|].
+        apply Forall_cons; [apply mk; auto; intros inp Hi; rewrite (Hdx inp Hi), (Hdy inp Hi); split; den_cases|].
+        apply Forall_cons; [apply mk; auto; intros inp Hi; rewrite (Hdx inp Hi), (Hdy inp Hi); split; den_cases|].
+        apply Forall_cons; [apply mk; auto; intros inp Hi; rewrite (Hdx inp Hi), (Hdy inp Hi); split; den_cases|].
+        apply Forall_nil. }
+      destruct (find_cached_and_xor b (arrangements x1 x2 y1 y2)) as [w|] eqn:Ec.
+      { destruct (find_cached_and_xor_sound _ _ Harr Ec) as [Hvw Hdw]. now apply good_ret. }
+      destruct (find_common (arrangements x1 x2 y1 y2)) as [[[a1 a2] b2]|] eqn:Ef;
+        [|now apply xstage2_sound].
+      destruct (find_common_sound _ _ _ _ Harr Ef) as (Va1 & Va2 & Vb2 & Hid).
+      pose proof (push_gate_sound b (BXor a2 b2) I (conj Va2 Vb2)) as P1.
+      destruct (push_gate b (BXor a2 b2)) as [t b1].
+      destruct P1 as (I1 & E1 & _ & Vt & _ & (_ & _ & _ & Hdt)). cbn [gfun] in Hdt.
+      assert (Va1' : valid b1 a1) by (eapply ext_valid; eauto).
+      pose proof (push_gate_sound b1 (BAnd a1 t) I1 (conj Va1' Vt)) as P2.
+      destruct (push_gate b1 (BAnd a1 t)) as [w b2'].
+      destruct P2 as (I2 & E2 & _ & Vw & _ & (_ & _ & _ & Hdw)). cbn [gfun] in Hdw.
+      cbn [good xor_post]. split; [exact I2|]. split; [eapply ext_trans; eauto|]. split; [exact Vw|].
+      intros inp Hi. assert (Hi1 : ins_ok b1 inp) by (eapply ext_ins_ok; eauto).
+      assert (Hi2 : ins_ok b2' inp) by (eapply ext_ins_ok; eauto).
+      rewrite (Hdw inp Hi2), (ext_den _ _ _ _ E2 Hi1 Vt), (Hdt inp Hi1).
+      rewrite (ext_den _ _ _ _ E2 Hi1 Va1').
+      rewrite !(ext_den _ _ _ _ E1 Hi) by assumption.
+      symmetry. now apply Hid.
+  Qed.
+End XorSound.
+
+Lemma push_xor_good fuel : forall b x y,
+  inv b -> valid b x -> valid b y ->
+  good (xor_post b x y) fuel (x + y) (push_xor fuel b x y).
+Proof.
+  induction fuel as [|fuel IH]; intros b x y I Hx Hy; cbn [push_xor].
+  - cbn [good]. lia.
+  - destruct (optimize_xor b x y) as [w|] eqn:Eo.
+    + cbn [good]. now apply optimize_xor_sound.
+    + destruct (optimize_xor_none _ _ _ Eo) as (Hx0 & Hy0 & Hxy).
+      destruct (lookup_ok b x I Hx) as [gx Lx]. destruct (lookup_ok b y I Hy) as [gy Ly].
+      rewrite Lx, Ly. cbn [bind].
+      apply xstage1_sound; auto; intros x' y' Hx' Hy' _; now apply IH.
+Qed.
+
+Theorem push_xor_top_sound : binop_sound inv push_xor_top xorb.
+Proof.
+  intros b x y I Hx Hy. unfold push_xor_top.
+  pose proof (push_xor_good small_fuel b x y I Hx Hy) as G1.
+  pose proof (push_xor_good (S (N.to_nat (x + y))) b x y I Hx Hy) as G2.
+  destruct (push_xor small_fuel b x y) as [[r b']| |]; cbn [good] in G1.
+  - exists r, b'. split; [reflexivity|]. exact G1.
+  - contradiction.
+  - destruct (push_xor (S (N.to_nat (x + y))) b x y) as [[r b']| |]; cbn [good] in G2.
+    + exists r, b'. split; [reflexivity|]. exact G2.
+    + contradiction.
+    + lia.
+Qed.
+
+(* ---------------------------------------------------------------- AND *)
+
+Definition and_post (b : builder) (x y : N) (p : N * builder) : Prop :=
+  let '(r, b') := p in
+  inv b' /\ ext b b' /\ valid b' r /\
+  forall inp, ins_ok b inp -> den inp b' r = andb (den inp b x) (den inp b y).
+
+Lemma orb_eqb_cases a p q : ((a =? p) || (a =? q)) = true -> a = p \/ a = q.
+Proof.
+  intro H. apply orb_true_iff in H. destruct H as [H|H]; apply N.eqb_eq in H; auto.
+Qed.
+
+Lemma optimize_and_sound b x y w :
+  inv b -> valid b x -> valid b y -> optimize_and b x y = Some w -> and_post b x y (w, b).
+Proof.
+  intros I Hx Hy. unfold optimize_and, and_post.
+  assert (Hbase : forall w', valid b w' ->
+            (forall inp, ins_ok b inp -> den inp b w' = andb (den inp b x) (den inp b y)) ->
+            inv b /\ ext b b /\ valid b w' /\
+            forall inp, ins_ok b inp -> den inp b w' = andb (den inp b x) (den inp b y)).
+  { intros w' Hw' Hd'. split; [exact I|]. split; [apply ext_refl|]. split; assumption. }
+  destruct (valid_consts b I) as [V0 V1].
+  destruct ((x =? 0) || (y =? 0)) eqn:E0.
+  { intros [= <-]. apply Hbase; auto. intros inp Hi. rewrite den_const0.
+    apply orb_true_iff in E0. destruct E0 as [E|E]; apply N.eqb_eq in E; subst;
+      rewrite den_const0; [reflexivity|now rewrite andb_false_r]. }
+  destruct (N.eqb_spec x 1) as [->|Hx1].
+  { intros [= <-]. apply Hbase; auto. intros. now rewrite den_const1. }
+  destruct ((y =? 1) || (x =? y)) eqn:E1.
+  { intros [= <-]. apply Hbase; auto. intros inp Hi.
+    apply orb_true_iff in E1. destruct E1 as [E|E]; apply N.eqb_eq in E; subst.
+    - now rewrite den_const1, andb_true_r.
+    - now rewrite andb_diag. }
+  assert (Hc : get_cached b (BAnd x y) = Some w -> _) by
+    (intro H; destruct (get_cached_and_sound b x y w I H); apply Hbase; eassumption).
+  destruct (nfind x (b_neg b)) as [xn|] eqn:Ex.
+  - destruct (inv_neg b I _ _ Ex) as (_ & _ & _ & Hd).
+    destruct (N.eqb_spec xn y) as [<-|_]; [|exact Hc].
+    intros [= <-]. apply Hbase; auto. intros inp Hi. rewrite den_const0, (Hd inp Hi).
+    now destruct (den inp b x).
+  - destruct (nfind y (b_neg b)) as [yn|] eqn:Ey; [|exact Hc].
+    destruct (inv_neg b I _ _ Ey) as (_ & _ & _ & Hd).
+    destruct (N.eqb_spec yn x) as [->|_]; [|exact Hc].
+    intros [= <-]. apply Hbase; auto. intros inp Hi. rewrite den_const0, (Hd inp Hi).
+    now destruct (den inp b y).
+Qed.
+
+Section AndSound.
+  Variable rec : builder -> N -> N -> res (N * builder).
+  Variable fuel' : nat.
+  Variable b : builder.
+  Variables x y : N.
+  Hypothesis I : inv b.
+  Hypothesis Hx : valid b x.
+  Hypothesis Hy : valid b y.
+  Hypothesis Hrec : forall y', valid b y' -> y' < y ->
+    good (and_post b x y') fuel' y' (rec b x y').
+
+  Lemma agood_rec y' :
+    valid b y' -> y' < y ->
+    (forall inp, ins_ok b inp ->
+       andb (den inp b x) (den inp b y') = andb (den inp b x) (den inp b y)) ->
+    good (and_post b x y) (S fuel') y (rec b x y').
+  Proof.
+    intros Hy' Hm Ht. pose proof (Hrec y' Hy' Hm) as H.
+    destruct (rec b x y') as [[r b']| |]; cbn [good and_post] in *.
+    - destruct H as (I' & E & Hv & Hd). split; [exact I'|]. split; [exact E|]. split; [exact Hv|].
+      intros inp Hi. rewrite (Hd inp Hi). now apply Ht.
+    - exact H.
+    - lia.
+  Qed.
+
+  Lemma agood_ret w :
+    valid b w ->
+    (forall inp, ins_ok b inp -> den inp b w = andb (den inp b x) (den inp b y)) ->
+    good (and_post b x y) (S fuel') y (Ok (w, b)).
+  Proof.
+    intros Hw Hd. cbn [good and_post]. split; [exact I|]. split; [apply ext_refl|]. split; assumption.
+  Qed.
+
+  Lemma agood_push : good (and_post b x y) (S fuel') y (Ok (push_gate b (BAnd x y))).
+  Proof.
+    cbn [good]. pose proof (push_gate_sound b (BAnd x y) I (conj Hx Hy)) as P.
+    destruct (push_gate b (BAnd x y)) as [w b1].
+    destruct P as (I1 & E1 & _ & Vw & _ & (Vx & Vy & _ & Hd)). cbn [gfun] in Hd.
+    cbn [and_post]. split; [exact I1|]. split; [exact E1|]. split; [exact Vw|].
+    intros inp Hi. assert (Hi1 : ins_ok b1 inp) by (eapply ext_ins_ok; eauto).
+    rewrite (Hd inp Hi1). now rewrite !(ext_den _ _ _ _ E1 Hi) by assumption.
+  Qed.
+
+  (* the distributed form: both partial products are cached *)
+  Lemma agood_xor w1 w2 :
+    valid b w1 -> valid b w2 ->
+    (forall inp, ins_ok b inp ->
+       xorb (den inp b w1) (den inp b w2) = andb (den inp b x) (den inp b y)) ->
+    good (and_post b x y) (S fuel') y (push_xor_top b w1 w2).
+  Proof.
+    intros V1 V2 Hid. destruct (push_xor_top_sound b w1 w2 I V1 V2) as (r & b' & -> & I' & E & Vr & Hd).
+    cbn [good and_post]. split; [exact I'|]. split; [exact E|]. split; [exact Vr|].
+    intros inp Hi. rewrite (Hd inp Hi). now apply Hid.
+  Qed.
+
+  Lemma astage3_sound gy :
+    lookup b y = Ok gy ->
+    good (and_post b x y) (S fuel') y (astage3 b x y gy).
+  Proof.
+    intro Ly. unfold astage3. destruct gy as [[y1 y2|y1 y2]|]; [| |apply agood_push].
+    - pose proof (gate_facts b y _ I Hy Ly) as F. cbn [gops gfun] in F.
+      destruct F as (L1 & L2 & V1 & V2 & _ & Hd).
+      destruct (get_cached b (BAnd x y1)) as [w1|] eqn:E1; [|apply agood_push].
+      destruct (get_cached b (BAnd x y2)) as [w2|] eqn:E2; [|apply agood_push].
+      destruct (get_cached_and_sound _ _ _ _ I E1) as [Vw1 Hd1].
+      destruct (get_cached_and_sound _ _ _ _ I E2) as [Vw2 Hd2].
+      apply agood_xor; auto. intros inp Hi. rewrite (Hd1 inp Hi), (Hd2 inp Hi), (Hd inp Hi). den_cases.
+    - pose proof (gate_facts b y _ I Hy Ly) as F. cbn [gops gfun] in F.
+      destruct F as (L1 & L2 & V1 & V2 & _ & Hd).
+      destruct ((x =? y1) || (x =? y2)) eqn:Ec.
+      { apply agood_ret; [exact Hy|]. intros inp Hi. rewrite (Hd inp Hi).
+        destruct (orb_eqb_cases _ _ _ Ec) as [<-|<-]; den_cases. }
+      destruct (nfind x (b_neg b)) as [xn|] eqn:Ex; [|apply agood_push].
+      destruct (inv_neg b I _ _ Ex) as (_ & _ & _ & Hdn).
+      destruct ((xn =? y1) || (xn =? y2)) eqn:Ec2; [|apply agood_push].
+      destruct (valid_consts b I) as [V0 _].
+      apply agood_ret; [exact V0|]. intros inp Hi. rewrite den_const0, (Hd inp Hi).
+      destruct (orb_eqb_cases _ _ _ Ec2) as [<-|<-]; rewrite (Hdn inp Hi); den_cases.
+  Qed.
+
+  Lemma astage2_sound gx gy :
+    lookup b x = Ok gx -> lookup b y = Ok gy ->
+    good (and_post b x y) (S fuel') y (astage2 b x y gx gy).
+  Proof.
+    intros Lx Ly. unfold astage2. destruct gx as [[x1 x2|x1 x2]|]; [| |now apply astage3_sound].
+    - pose proof (gate_facts b x _ I Hx Lx) as F. cbn [gops gfun] in F.
+      destruct F as (L1 & L2 & V1 & V2 & _ & Hd).
+      destruct (get_cached b (BAnd x1 y)) as [w1|] eqn:E1; [|now apply astage3_sound].
+      destruct (get_cached b (BAnd x2 y)) as [w2|] eqn:E2; [|now apply astage3_sound].
+      destruct (get_cached_and_sound _ _ _ _ I E1) as [Vw1 Hd1].
+      destruct (get_cached_and_sound _ _ _ _ I E2) as [Vw2 Hd2].
+      apply agood_xor; auto. intros inp Hi. rewrite (Hd1 inp Hi), (Hd2 inp Hi), (Hd inp Hi). den_cases.
+    - pose proof (gate_facts b x _ I Hx Lx) as F. cbn [gops gfun] in F.
+      destruct F as (L1 & L2 & V1 & V2 & _ & Hd).
+      destruct ((x1 =? y) || (x2 =? y)) eqn:Ec.
+      { apply agood_ret; [exact Hx|]. intros inp Hi. rewrite (Hd inp Hi).
+        apply orb_true_iff in Ec. destruct Ec as [E|E]; apply N.eqb_eq in E; rewrite <- E; den_cases. }
+      destruct (nfind y (b_neg b)) as [yn|] eqn:Ey; [|now apply astage3_sound].
+      destruct (inv_neg b I _ _ Ey) as (_ & _ & _ & Hdn).
+      destruct ((x1 =? yn) || (x2 =? yn)) eqn:Ec2; [|now apply astage3_sound].
+      destruct (valid_consts b I) as [V0 _].
+      apply agood_ret; [exact V0|]. intros inp Hi. rewrite den_const0, (Hd inp Hi).
+      apply orb_true_iff in Ec2. destruct Ec2 as [E|E]; apply N.eqb_eq in E; rewrite E, (Hdn inp Hi); den_cases.
+  Qed.
+
+  Lemma astage1_sound gx gy :
+    lookup b x = Ok gx -> lookup b y = Ok gy ->
+    good (and_post b x y) (S fuel') y (astage1 rec b x y gx gy).
+  Proof.
+    intros Lx Ly. unfold astage1.
+    destruct gx as [[x1 x2|x1 x2]|]; try now apply astage2_sound.
+    destruct gy as [[y1 y2|y1 y2]|]; try now apply astage2_sound.
+    pose proof (gate_facts b x _ I Hx Lx) as F. cbn [gops gfun] in F.
+    destruct F as (Lx1 & Lx2 & Vx1 & Vx2 & _ & Hdx).
+    pose proof (gate_facts b y _ I Hy Ly) as F. cbn [gops gfun] in F.
+    destruct F as (Ly1 & Ly2 & Vy1 & Vy2 & _ & Hdy).
+    destruct ((x1 =? y1) || (x2 =? y1)) eqn:Ec.
+    { apply agood_rec; auto. intros inp Hi. rewrite (Hdx inp Hi), (Hdy inp Hi).
+      apply orb_true_iff in Ec. destruct Ec as [E|E]; apply N.eqb_eq in E; rewrite <- E; den_cases. }
+    destruct ((x1 =? y2) || (x2 =? y2)) eqn:Ec2; [|now apply astage2_sound].
+    apply agood_rec; auto. intros inp Hi. rewrite (Hdx inp Hi), (Hdy inp Hi).
+    apply orb_true_iff in Ec2. destruct Ec2 as [E|E]; apply N.eqb_eq in E; rewrite <- E; den_cases.
+  Qed.
+End AndSound.
+
+Lemma push_and_good fuel : forall b x y,
+  inv b -> valid b x -> valid b y ->
+  good (and_post b x y) fuel y (push_and fuel b x y).
+Proof.
+  induction fuel as [|fuel IH]; intros b x y I Hx Hy; cbn [push_and].
+  - cbn [good]. lia.
+  - destruct (optimize_and b x y) as [w|] eqn:Eo.
+    + cbn [good]. now apply optimize_and_sound.
+    + destruct (lookup_ok b x I Hx) as [gx Lx]. destruct (lookup_ok b y I Hy) as [gy Ly].
+      rewrite Lx, Ly. cbn [bind].
+      apply astage1_sound; auto; intros y' Hy' _; now apply IH.
+Qed.
+
+Theorem push_and_top_sound : binop_sound inv push_and_top andb.
+Proof.
+  intros b x y I Hx Hy. unfold push_and_top.
+  pose proof (push_and_good small_fuel b x y I Hx Hy) as G1.
+  pose proof (push_and_good (S (N.to_nat y)) b x y I Hx Hy) as G2.
+  destruct (push_and small_fuel b x y) as [[r b']| |]; cbn [good] in G1.
+  - exists r, b'. split; [reflexivity|]. exact G1.
+  - contradiction.
+  - destruct (push_and (S (N.to_nat y)) b x y) as [[r b']| |]; cbn [good] in G2.
+    + exists r, b'. split; [reflexivity|]. exact G2.
+    + contradiction.
+    + lia.
+Qed.
+
+(* ---------------------------------------------------------------- derived requests *)
+
+Theorem push_not_sound : unop_sound inv push_not negb.
+Proof.
+  intros b x I Hx. unfold push_not. destruct (valid_consts b I) as [_ V1].
+  destruct (push_xor_top_sound b x 1 I Hx V1) as (r & b' & E & I' & Ex & Vr & Hd).
+  exists r, b'. split; [exact E|]. split; [exact I'|]. split; [exact Ex|]. split; [exact Vr|].
+  intros inp Hi. rewrite (Hd inp Hi), den_const1. now destruct (den inp b x).
+Qed.
+
+Theorem push_or_sound : binop_sound inv push_or orb.
+Proof.
+  intros b x y I Hx Hy. unfold push_or.
+  destruct (push_xor_top_sound b x y I Hx Hy) as (xo & b1 & -> & I1 & E1 & V1 & D1). cbn [bind].
+  destruct (push_and_top_sound b1 x y I1 (ext_valid _ _ _ E1 Hx) (ext_valid _ _ _ E1 Hy))
+    as (an & b2 & -> & I2 & E2 & V2 & D2). cbn [bind].
+  destruct (push_xor_top_sound b2 xo an I2 (ext_valid _ _ _ E2 V1) V2) as (r & b3 & -> & I3 & E3 & V3 & D3).
+  exists r, b3. split; [reflexivity|]. split; [exact I3|].
+  split; [eapply ext_trans; [eapply ext_trans|]; eauto|]. split; [exact V3|].
+  intros inp Hi. assert (Hi1 : ins_ok b1 inp) by (eapply ext_ins_ok; eauto).
+  assert (Hi2 : ins_ok b2 inp) by (eapply ext_ins_ok; eauto).
+  rewrite (D3 inp Hi2), (D2 inp Hi1), (ext_den _ _ _ _ E2 Hi1 V1), (D1 inp Hi).
+  rewrite (ext_den _ _ _ _ E1 Hi Hx), (ext_den _ _ _ _ E1 Hi Hy). den_cases.
+Qed.
+
+Theorem push_eq_sound : binop_sound inv push_eq (fun a b => negb (xorb a b)).
+Proof.
+  intros b x y I Hx Hy. unfold push_eq.
+  destruct (push_xor_top_sound b x y I Hx Hy) as (xo & b1 & -> & I1 & E1 & V1 & D1). cbn [bind].
+  destruct (valid_consts b1 I1) as [_ Vc].
+  destruct (push_xor_top_sound b1 xo 1 I1 V1 Vc) as (r & b2 & -> & I2 & E2 & V2 & D2).
+  exists r, b2. split; [reflexivity|]. split; [exact I2|]. split; [eapply ext_trans; eauto|].
+  split; [exact V2|]. intros inp Hi. assert (Hi1 : ins_ok b1 inp) by (eapply ext_ins_ok; eauto).
+  rewrite (D2 inp Hi1), (D1 inp Hi), den_const1. den_cases.
+Qed.
+
+Theorem push_mux_sound : mux_sound inv.
+Proof.
+  intros b s x0 x1 I Hs H0 H1. unfold push_mux.
+  destruct (N.eqb_spec x0 x1) as [<-|Hne].
+  { exists x0, b. split; [reflexivity|]. split; [exact I|]. split; [apply ext_refl|]. split; [exact H0|].
+    intros inp Hi. now destruct (den inp b s). }
+  destruct (push_xor_top_sound b x0 x1 I H0 H1) as (d & b1 & -> & I1 & E1 & V1 & D1). cbn [bind].
+  destruct (push_not_sound b1 s I1 (ext_valid _ _ _ E1 Hs)) as (ns & b2 & -> & I2 & E2 & V2 & D2).
+  cbn [bind].
+  destruct (push_and_top_sound b2 d ns I2 (ext_valid _ _ _ E2 V1) V2) as (sw & b3 & -> & I3 & E3 & V3 & D3).
+  cbn [bind].
+  assert (E13 : ext b b3) by (eapply ext_trans; [eapply ext_trans|]; eauto).
+  destruct (push_xor_top_sound b3 x0 sw I3 (ext_valid _ _ _ E13 H0) V3) as (r & b4 & -> & I4 & E4 & V4 & D4).
+  exists r, b4. split; [reflexivity|]. split; [exact I4|]. split; [eapply ext_trans; eauto|].
+  split; [exact V4|]. intros inp Hi.
+  assert (Hi1 : ins_ok b1 inp) by (eapply ext_ins_ok; eauto).
+  assert (Hi2 : ins_ok b2 inp) by (eapply ext_ins_ok; eauto).
+  assert (Hi3 : ins_ok b3 inp) by (eapply ext_ins_ok; eauto).
+  rewrite (D4 inp Hi3), (D3 inp Hi2), (D2 inp Hi1).
+  rewrite (ext_den _ _ _ _ E13 Hi H0), (ext_den _ _ _ _ E2 Hi1 V1), (D1 inp Hi).
+  rewrite (ext_den _ _ _ _ E1 Hi Hs). den_cases.
+Qed.
+
+Lemma inv_new dedup inputs : inv (new_builder dedup inputs).
+Proof.
+  unfold new_builder. constructor; cbn [b_shift b_inputs b_ngates b_gates_rev b_gmap b_cxor b_cand b_neg].
+  - lia.
+  - reflexivity.
+  - reflexivity.
+  - intro i. unfold glist. cbn [b_gates_rev rev]. rewrite nfind_empty.
+    destruct (nthN (@nil bgate) i) eqn:E; [apply nthN_lt in E; rewrite lenN_nil in E; lia|reflexivity].
+  - intros i g. unfold glist. cbn [b_gates_rev rev]. intro E. apply nthN_lt in E. rewrite lenN_nil in E. lia.
+  - intros x y w. unfold cache_get. rewrite nfind_empty. discriminate.
+  - intros x y w. unfold cache_get. rewrite nfind_empty. discriminate.
+  - intros a n. rewrite nfind_empty. discriminate.
+Qed.
+
+Theorem builder_sound : builder_ops_sound inv.
+Proof.
+  constructor.
+  - exact push_xor_top_sound.
+  - exact push_and_top_sound.
+  - exact push_or_sound.
+  - exact push_eq_sound.
+  - exact push_not_sound.
+  - exact push_mux_sound.
+  - intros. apply den_const0.
+  - intros. apply den_const1.
+  - exact valid_consts.
+  - exact inv_new.
+Qed.
